@@ -107,6 +107,15 @@ fn layer_command(layer: &str) -> Result<Vec<String>, String> {
             run_cmd(c, "cargo build --profile plain")?;
             Ok(vec![h.join("target/plain/qxcheck").to_string_lossy().to_string()])
         }
+        "novl" => {
+            // the harness without quick-xml's overlapped-lists feature
+            let mut c = Command::new("cargo");
+            c.current_dir(&h)
+                .args(["build", "--release", "--offline", "-q", "--no-default-features", "--target-dir", "target-novl"])
+                .env("CARGO_NET_OFFLINE", "true");
+            run_cmd(c, "cargo build --no-default-features (novl)")?;
+            Ok(vec![h.join("target-novl/release/qxcheck").to_string_lossy().to_string()])
+        }
         "asan" => {
             let mut c = Command::new("cargo");
             c.current_dir(&h)
@@ -381,6 +390,7 @@ pub fn run_check(spec: &PropSpec, tier: Tier) -> i32 {
             }
         }
         let deadline = Instant::now() + watchdog;
+        let mut triaged = 0u32;
         for mut w in workers {
             // wait with watchdog
             let status = loop {
@@ -424,6 +434,14 @@ pub fn run_check(spec: &PropSpec, tier: Tier) -> i32 {
                         eprintln!("note: Miri shard {} stopped at an operation Miri does not support; log tail:\n{}", w.shard, logtail);
                         continue;
                     }
+                    // Re-running a shard in journal mode is slow (a stall needs 90 s to show again): after two
+                    // deaths have been pinned to their cases, further dead workers of the same layer are
+                    // counted, not triaged
+                    if triaged >= 2 {
+                        *merged.counters.entry(format!("layer.{}.workers_died_not_triaged", w.layer)).or_insert(0) += 1;
+                        continue;
+                    }
+                    triaged += 1;
                     // triage: re-run this shard in journal mode to find the case
                     let jpath = scratch.join(format!("{}-{}.journal", w.layer, w.shard));
                     let out2 = scratch.join(format!("{}-{}-j.json", w.layer, w.shard));
